@@ -2701,6 +2701,9 @@ func unpackOPTResource(msg []byte, off int, length uint16) (OPTResource, error) 
 		if err != nil {
 			return OPTResource{}, &nestedError{"Data", err}
 		}
+		if off+int(l) > oldOff+int(length) {
+			return OPTResource{}, &nestedError{"Data", errCalcLen}
+		}
 		o.Data = make([]byte, l)
 		if copy(o.Data, msg[off:]) != int(l) {
 			return OPTResource{}, &nestedError{"Data", errCalcLen}
